@@ -241,6 +241,10 @@ func (b *OutboundBreaker) init(limit int64, interval time.Duration) (*OutboundBr
 		return nil, fmt.Errorf("bad limit %d", limit)
 	}
 	ticks := breakerTicks
+	if interval.Nanoseconds() < int64(ticks) {
+		// The window is tracked at a resolution of interval/ticks, which has to be at least 1ns.
+		return nil, fmt.Errorf("bad interval %v", interval)
+	}
 	b.limit = limit
 	b.interval = interval
 	b.ticks = ticks
